@@ -12,7 +12,7 @@ import (
 // same-hash-other-codec and identity keys under every option row.  A separate malformed stream
 // (byte flips, truncations, wrong index, null padding without the option) only validates model = code.
 
-type roArchive struct {
+type c07Archive struct {
 	roots   []cid.Cid
 	blks    []Blk
 	payload []byte // with null padding
@@ -74,7 +74,7 @@ func c07Queries(front uint64, keys []cid.Cid) VL {
 	return qs
 }
 
-func genRoArchive(r *RNG, c *Ctx, big bool) roArchive {
+func c07GenArchive(r *RNG, c *Ctx, big bool) c07Archive {
 	nb := r.Intn(8)
 	if r.Chance(10) {
 		nb = 0
@@ -93,7 +93,7 @@ func genRoArchive(r *RNG, c *Ctx, big bool) roArchive {
 		}
 	}
 	roots := genRoots(r, blks, true)
-	a := roArchive{roots: roots, blks: blks}
+	a := c07Archive{roots: roots, blks: blks}
 	a.payload = refPayload(roots, blks)
 	if r.Chance(30) {
 		a.npad = pick(r, []int{1, 2, 9, 130})
@@ -102,7 +102,7 @@ func genRoArchive(r *RNG, c *Ctx, big bool) roArchive {
 	return a
 }
 
-func hasIdentity(blks []Blk) bool {
+func c07HasIdentity(blks []Blk) bool {
 	for _, b := range blks {
 		if b.Cid.Prefix().MhType == mh.IDENTITY {
 			return true
@@ -111,9 +111,9 @@ func hasIdentity(blks []Blk) bool {
 	return false
 }
 
-type roCase struct {
+type c07Case struct {
 	front    uint64
-	o        qOpts
+	o        c07Opts
 	file     []byte
 	supplied Val
 	idxIDs   bool // the index in use has identity entries (or is generated on open)
@@ -128,8 +128,8 @@ func init() {
 		}
 		for a := 0; a < nArch; a++ {
 			r := c.R.Fork()
-			ar := genRoArchive(r, c, true)
-			o := defaultQOpts
+			ar := c07GenArchive(r, c, true)
+			o := c07DefaultOpts
 			o.whole = r.Bool()
 			o.storeID = r.Bool()
 			o.zeof = ar.npad > 0 || r.Chance(20)
@@ -137,7 +137,7 @@ func init() {
 			dpad := uint64(pick(r, []int{0, 0, 1, 7, 1413}))
 			ipad := uint64(pick(r, []int{0, 0, 1, 512}))
 			keys := c07Keys(r, ar.blks)
-			ids := hasIdentity(ar.blks)
+			ids := c07HasIdentity(ar.blks)
 			if ids {
 				c.Count("archive:has-identity-sections")
 			}
@@ -146,18 +146,18 @@ func init() {
 			}
 			c.CountN("archive:blocks", len(ar.blks))
 
-			var cases []roCase
+			var cases []c07Case
 			v1 := ar.payload
-			v2none := v2File(ar.payload, dpad, ipad, nil, false)
+			v2none := c07V2File(ar.payload, dpad, ipad, nil, false)
 			// embedded indexes, built independently of the library
 			embCodec := pick(r, []uint64{0x0400, 0x0401})
 			embID := r.Bool()
-			emb := v2File(ar.payload, dpad, ipad, refIndexBytes(embCodec, refRecords(ar.roots, ar.blks, embID)), embID)
+			emb := c07V2File(ar.payload, dpad, ipad, c07RefIndexBytes(embCodec, c07RefRecords(ar.roots, ar.blks, embID)), embID)
 			for _, front := range []uint64{0, 1} {
 				cases = append(cases,
-					roCase{front, o, v1, VT("none"), true, "v1-generated"},
-					roCase{front, o, v2none, VT("none"), true, "v2-indexless-generated"},
-					roCase{front, o, emb, VT("none"), embID || !ids, "v2-embedded"})
+					c07Case{front, o, v1, VT("none"), true, "v1-generated"},
+					c07Case{front, o, v2none, VT("none"), true, "v2-indexless-generated"},
+					c07Case{front, o, emb, VT("none"), embID || !ids, "v2-embedded"})
 			}
 			// caller-supplied indexes of both codecs, generated from the same payload with the same
 			// identity setting (blockstore only; OpenReadable has no index parameter)
@@ -174,13 +174,13 @@ func init() {
 				if r.Bool() && len(ar.blks) > 0 {
 					src = base
 				}
-				cases = append(cases, roCase{0, o, base, VL{VT("gen"), g.val(), VB(src)}, true, "supplied"})
+				cases = append(cases, c07Case{0, o, base, VL{VT("gen"), g.val(), VB(src)}, true, "supplied"})
 			}
 			for _, k := range cases {
 				qs := c07Queries(k.front, keys)
 				hdrs := Val(VL{})
 				if r.Chance(50) {
-					hdrs = roHdrTable(k.file)
+					hdrs = c07HdrTable(k.file)
 				}
 				expect := VL{VT("valid"), cidsVal(ar.roots), blksVal(ar.blks), vbool(k.idxIDs)}
 				in := VL{VN(k.front), k.o.val(), VB(k.file), k.supplied, qs, hdrs, expect}
@@ -188,7 +188,7 @@ func init() {
 				if k.front == 1 && backing == 3 {
 					backing = 2
 				}
-				obs := runRoImpl(c, k.front, k.o, k.file, k.supplied, qs, backing)
+				obs := c07RunImpl(c, k.front, k.o, k.file, k.supplied, qs, backing)
 				c.Emit("ro", in, obs, len(ar.blks) >= 2)
 				c.Count("case:" + k.label)
 				c.CountN("queries", len(qs))
@@ -215,7 +215,7 @@ func init() {
 						mo.zeof = !mo.zeof
 						c.Count("malformed:zeof-toggled")
 					case 4: // index generated from another payload
-						other := genRoArchive(r, c, false)
+						other := c07GenArchive(r, c, false)
 						sup = VL{VT("gen"), mo.val(), VB(other.payload)}
 						front = 0
 						c.Count("malformed:foreign-index")
@@ -230,8 +230,8 @@ func init() {
 					if l, ok := sup.(VL); ok {
 						hdrFiles = append(hdrFiles, []byte(l[2].(VB)))
 					}
-					in := VL{VN(front), mo.val(), VB(f), sup, qs, roHdrTable(hdrFiles...), VT("none")}
-					obs := runRoImpl(c, front, mo, f, sup, qs, r.Intn(3))
+					in := VL{VN(front), mo.val(), VB(f), sup, qs, c07HdrTable(hdrFiles...), VT("none")}
+					obs := c07RunImpl(c, front, mo, f, sup, qs, r.Intn(3))
 					c.Emit("ro", in, obs, false)
 				}
 			}
